@@ -1551,11 +1551,11 @@ impl<'bump, T: 'bump> Vec<'bump, T> {
         let len = self.len();
         let start = match range.start_bound() {
             Included(&n) => n,
-            Excluded(&n) => n + 1,
+            Excluded(&n) => n.checked_add(1).expect("attempted to index slice from after maximum usize"),
             Unbounded => 0,
         };
         let end = match range.end_bound() {
-            Included(&n) => n + 1,
+            Included(&n) => n.checked_add(1).expect("attempted to index slice up to maximum usize"),
             Excluded(&n) => n,
             Unbounded => len,
         };
